@@ -3,6 +3,7 @@ import collections
 from .. import cases as K
 from ..layer_a import Engine
 from ..runner import run_coexec, replay_coexec
+from ..tuple_part import TuplePart
 from .C02 import chain_counts
 
 MODULE = "Props.C03"
@@ -194,7 +195,8 @@ def engines(tier):
 
 def run(tier, seed):
     return run_coexec("C03", tier, seed, module=MODULE, theorems=THEOREMS, gen_cases=gen_cases,
-                      nontrivial=nontrivial, rule=RULE, engines=engines(tier), stats=stats)
+                      nontrivial=nontrivial, rule=RULE, engines=engines(tier), stats=stats,
+                      parts=[TuplePart("C03", project, n_quick=30)])
 
 
 def replay(path):
